@@ -109,6 +109,12 @@ func c10CheckStream(x *c10Exec, solo *c10SoloCache, expr string, files []c10File
 	if noSep {
 		return v
 	}
+	if c10KeepsProvenance(expr) {
+		// pick / omit hand out a copy of the node WITH its place in the stream: the recorded deviation about derived
+		// root results does not cover them
+		v.Detail += "\n(pick / omit keep the document a result belongs to: no finding matcher applies)"
+		return v
+	}
 	rs, why := c10SplitResults(solo, expr, ps[:len(outs)], outs)
 	if rs == nil && strings.HasPrefix(why, "timeout") {
 		return c10Verdict{Verdict: mon.Inconclusive, Tags: tags, Detail: "a classification run did not complete (" + why + ")\n" + v.Detail}
@@ -233,4 +239,14 @@ func c10Simulate(rs []c10Result, quirkA, quirkB bool) string {
 		}
 	}
 	return sb.String()
+}
+
+// c10KeepsProvenance: the expression is one of the uncomposed pick / omit templates.
+func c10KeepsProvenance(expr string) bool {
+	for _, t := range c10Tmpls {
+		if t.Op == "pick-root" && t.Expr == expr {
+			return true
+		}
+	}
+	return false
 }
